@@ -6,6 +6,7 @@ contracts (children partition / factor the parent, parameter maps transport the 
 claim is itself checked per run against WordUniverse.tla (fixture validation, exit 2 if broken).
 """
 import itertools
+import random as _random
 from typing import Dict, Iterator, Optional, Tuple
 
 import sympy
@@ -21,6 +22,9 @@ from comb_spec_searcher import (
     VerificationStrategy,
 )
 from comb_spec_searcher.strategies.strategy import SymmetryStrategy
+
+
+RNG = _random  # the random source of the fixture's own samplers (replaced by an enumerator in C08)
 
 
 class W(str, CombinatorialObject):
@@ -427,9 +431,7 @@ class PrefixVerified(VerificationStrategy[WC, W]):
         return c.get_objects(n)
 
     def random_sample_object_of_size(self, c, n, **p):
-        import random
-
-        return random.choice(list(c.objects_of_size(n, **p)))
+        return RNG.choice(list(c.objects_of_size(n, **p)))
 
     def formal_step(self):
         return "prefix of length >= %d" % self.k
@@ -464,9 +466,7 @@ class EmptyPrefixVerified(Simple, VerificationStrategy[WC, W]):
         return c.get_objects(n)
 
     def random_sample_object_of_size(self, c, n, **p):
-        import random
-
-        return random.choice(list(c.objects_of_size(n, **p)))
+        return RNG.choice(list(c.objects_of_size(n, **p)))
 
     def formal_step(self):
         return "empty prefix, brute force"
